@@ -73,6 +73,10 @@ func colValue(col string, row int) driver.Value {
 		return float64(row) + 0.5
 	case "d":
 		return int64(99)
+	case "n":
+		return nil // a column the destination does not map, holding NULL
+	case "t":
+		return []byte("raw") // another unmapped column, holding bytes
 	}
 	return nil
 }
@@ -151,6 +155,9 @@ func TestVerifRows(t *testing.T) {
 	var colSets [][]string
 	colSets = append(colSets, perms([]string{"a", "b", "c"})...)
 	colSets = append(colSets, perms([]string{"a", "b", "c", "d"})...)
+	colSets = append(colSets, perms([]string{"a", "b", "c", "n"})...)
+	colSets = append(colSets, perms([]string{"a", "b", "c", "t"})...)
+	colSets = append(colSets, []string{"n", "a", "d", "b", "t", "c"})
 	colSets = append(colSets, perms([]string{"a", "b"})...)
 	colSets = append(colSets, []string{"c"}, []string{"b", "c"})
 	for _, d := range dests {
@@ -234,7 +241,7 @@ func TestVerifRows(t *testing.T) {
 						flatten(e, byName, &byPos)
 						if d.tagged {
 							for _, col := range cols {
-								if col == "d" {
+								if col == "d" || col == "n" || col == "t" {
 									continue
 								}
 								if byName[col] != colValue(col, r) {
